@@ -151,6 +151,8 @@ def run(model, tier="quick"):
     effects_check(res, model, "UniLpMarket.transfer_position_in", _C01.REF_TRANSFER_IN, "take back: only a lent position", _C01.FX, keep_raise_effects=True)
     formula_check(res, model, "GmxMarket.get_fee_basis_points", _C17.REF_FEE_BPS,
                   "GLP mint / burn fee: VaultUtils decision tree, hence 0 <= fee <= base + tax (never a payment to the trader)", opaque=["get_target_amount"])
+    from .base_refs import write_gate
+    write_gate(res, model, rule="R-PAIR")     # a closed market REJECTS an operation (never returns normally with nothing moved)
     from ..rules.fresh import fresh_rule
     if "R-FRESH" not in res.rules:
         res.rules.append("R-FRESH")
